@@ -142,6 +142,11 @@ func genTimer(seed uint64, n int, path string) {
 	for i := 0; i < n; i++ {
 		r := root.Fork()
 		out.Line("case", strconv.Itoa(i), "timer")
+		if i == 1 {
+			// the client's own queue, delay 0: the order store-then-push under a real race
+			out.Line("rz", map[bool]string{true: "2500", false: "40000"}[n <= 100])
+			continue
+		}
 		if i == 0 {
 			iters := 100000
 			if n > 100 {
@@ -234,6 +239,48 @@ func queueBurst(reps, burst int) (lostDelayed, lostBurst, early int64) {
 	return lostDelayed, lostBurst, early
 }
 
+// runRZ: `rz <count>` - ratio 1 (grace = whole lifetime, delay 0) on the client's OWN delayed queue, the one
+// NewSecretManagerClient creates and starts: every certificate's rotation task is due at once and races
+// registerSecret.  For each of <count> certificates: GenerateSecret, then wait for the `default` callback;
+// the task must find its certificate cached (SetWorkload(&item) precedes PushDelayed), clear it and call
+// back.  A task that ran before the store is a no-op: no callback within 2 s = one lost rotation.
+func runRZ(t []string) string {
+	if len(t) != 2 {
+		return "bad-op"
+	}
+	n, err := strconv.Atoi(t[1])
+	if err != nil || n < 0 || n > 1000000 {
+		return "bad-op"
+	}
+	s := newSUTOwnQueue(1, 0)
+	defer s.close()
+	s.ca.next = caOutcome{kind: "ok", ttl: time.Hour, signer: 'A', bundle: "-"}
+	cb := make(chan struct{}, 16)
+	s.sc.RegisterSecretHandler(func(name string) {
+		if name == security.WorkloadKeyCertResourceName {
+			cb <- struct{}{}
+		}
+	})
+	lost := 0
+	for k := 0; k < n; k++ {
+		if _, err := s.sc.GenerateSecret(security.WorkloadKeyCertResourceName); err != nil {
+			return "gen-error"
+		}
+		select {
+		case <-cb:
+			if nacache.VerifCachedWorkload(s.sc) != nil {
+				return "cached-after-rotation"
+			}
+		case <-time.After(2 * time.Second):
+			lost++
+			// never renewed: empty the cache by hand to go on
+			_ = s.sc.UpdateConfigTrustBundle([]byte(strings.Join(bundlePEMs([]string{"B", "C"}[lost%2]), "")))
+			<-cb
+		}
+	}
+	return fmt.Sprintf("lost-rotations=%d", lost)
+}
+
 const qsClean = "lost=0 burst:lost-delayed=0,lost=0,early=0"
 
 func runQS(t []string) string {
@@ -308,7 +355,7 @@ func timerAttempt(t []string) (string, bool) {
 	gen()
 	n := 1
 	if stale {
-		_ = s.sc.UpdateConfigTrustBundle([]byte(strings.Join(bundlePEMs("B"), "")))
+		s.updateBundle([]byte(strings.Join(bundlePEMs("B"), "")))
 		collect()
 		gen()
 		n = 2
@@ -352,6 +399,10 @@ func execTimer(in, outp string) {
 			res[i] = runQS(t) // alone, before the timer cases start
 			continue
 		}
+		if t[0] == "rz" {
+			res[i] = runRZ(t)
+			continue
+		}
 		if t[0] != "rt" {
 			res[i] = "ok"
 			if t[0] != "case" {
@@ -359,6 +410,7 @@ func execTimer(in, outp string) {
 			}
 			continue
 		}
+		_ = i
 		wg.Add(1)
 		go func(i int, t []string) {
 			defer wg.Done()
@@ -385,7 +437,7 @@ func oracleTimer(in, outp string) {
 	defer out.Close()
 	var lines [][]string
 	for _, t := range wire.ReadLines(in) {
-		if t[0] == "qs" || t[0] == "rt" {
+		if t[0] == "qs" || t[0] == "rt" || t[0] == "rz" {
 			lines = append(lines, t)
 		}
 	}
@@ -393,6 +445,13 @@ func oracleTimer(in, outp string) {
 	sem := make(chan struct{}, 8)
 	var wg sync.WaitGroup
 	for i, t := range lines {
+		if t[0] == "rz" {
+			res[i] = "OK"
+			if r := runRZ(t); r != "lost-rotations=0" {
+				res[i] = "FAIL rotation-lost-task-before-store " + wire.Enc(join(t)) + " " + wire.Enc(r)
+			}
+			continue
+		}
 		if t[0] == "qs" { // alone, before the timer cases start
 			res[i] = "OK"
 			if r := runQS(t); r != qsClean {
